@@ -1605,6 +1605,20 @@ func MarshalNLRI(value bgp.NLRI) (*api.NLRI, error) {
 				Label:       r.Label,
 				GwAddress:   r.GWIPAddress.String(),
 			}}
+		case *bgp.EVPNIPMSIRoute:
+			rd, err := MarshalRD(r.RD)
+			if err != nil {
+				return nil, err
+			}
+			rt, err := MarshalRT(r.EC)
+			if err != nil {
+				return nil, err
+			}
+			nlri.Nlri = &api.NLRI_EvpnIPmsi{EvpnIPmsi: &api.EVPNIPMSIRoute{
+				Rd:          rd,
+				EthernetTag: r.ETag,
+				Rt:          rt,
+			}}
 		}
 	case *bgp.LabeledVPNIPAddrPrefix:
 		rd, err := MarshalRD(v.RD)
@@ -1941,6 +1955,19 @@ func UnmarshalNLRI(rf bgp.Family, an *api.NLRI) (bgp.NLRI, error) {
 				return nil, err
 			}
 			nlri, _ = bgp.NewEVPNIPPrefixRoute(rd, *esi, v.EthernetTag, uint8(v.IpPrefixLen), prefix, gw, v.Label)
+		}
+	case *api.NLRI_EvpnIPmsi:
+		v := n.EvpnIPmsi
+		if rf == bgp.RF_EVPN {
+			rd, err := UnmarshalRD(v.Rd)
+			if err != nil {
+				return nil, err
+			}
+			rt, err := UnmarshalRT(v.Rt)
+			if err != nil {
+				return nil, err
+			}
+			nlri = bgp.NewEVPNIPMSIRoute(rd, v.EthernetTag, rt)
 		}
 	case *api.NLRI_SrPolicy:
 		v := n.SrPolicy
